@@ -354,16 +354,35 @@ def _global_getter(fieldname: str):
     return getattr(pt.Global, f.name)()
 
 
-_MAYBE_CTORS = {
-    ("asset_holding_get", "AssetBalance"): lambda a, b: pt.AssetHolding.balance(a, b),
-    ("asset_holding_get", "AssetFrozen"): lambda a, b: pt.AssetHolding.frozen(a, b),
-    ("asset_params_get", "AssetTotal"): lambda a: pt.AssetParam.total(a),
-    ("asset_params_get", "AssetName"): lambda a: pt.AssetParam.name(a),
-    ("asset_params_get", "AssetManager"): lambda a: pt.AssetParam.manager(a),
-    ("app_params_get", "AppGlobalNumUint"): lambda a: pt.AppParam.globalNumUint(a),
-    ("app_params_get", "AppAddress"): lambda a: pt.AppParam.address(a),
-    ("acct_params_get", "AcctBalance"): lambda a: pt.AccountParam.balance(a),
+# TEAL field name -> the public accessor (by the naming rule of the API, written out once here)
+_MAYBE_NAMES = {
+    "asset_holding_get": ("AssetHolding", 2, {"AssetBalance": "balance", "AssetFrozen": "frozen"}),
+    "asset_params_get": ("AssetParam", 1, {"AssetTotal": "total", "AssetDecimals": "decimals", "AssetDefaultFrozen": "defaultFrozen",
+                                           "AssetUnitName": "unitName", "AssetName": "name", "AssetURL": "url", "AssetMetadataHash": "metadataHash",
+                                           "AssetManager": "manager", "AssetReserve": "reserve", "AssetFreeze": "freeze", "AssetClawback": "clawback",
+                                           "AssetCreator": "creator"}),
+    "app_params_get": ("AppParam", 1, {"AppApprovalProgram": "approvalProgram", "AppClearStateProgram": "clearStateProgram",
+                                       "AppGlobalNumUint": "globalNumUint", "AppGlobalNumByteSlice": "globalNumByteSlice",
+                                       "AppLocalNumUint": "localNumUint", "AppLocalNumByteSlice": "localNumByteSlice",
+                                       "AppExtraProgramPages": "extraProgramPages", "AppCreator": "creator", "AppAddress": "address"}),
+    "acct_params_get": ("AccountParam", 1, {"AcctBalance": "balance", "AcctMinBalance": "minBalance", "AcctAuthAddr": "authAddr",
+                                            "AcctTotalNumUint": "totalNumUint", "AcctTotalNumByteSlice": "totalNumByteSlice",
+                                            "AcctTotalExtraAppPages": "totalExtraAppPages", "AcctTotalAppsCreated": "totalAppsCreated",
+                                            "AcctTotalAppsOptedIn": "totalAppsOptedIn", "AcctTotalAssetsCreated": "totalAssetsCreated",
+                                            "AcctTotalAssets": "totalAssets", "AcctTotalBoxes": "totalBoxes", "AcctTotalBoxBytes": "totalBoxBytes"}),
 }
+
+
+class _MaybeCtors(dict):
+    def __missing__(self, key):
+        op, field = key
+        cls, nargs, names = _MAYBE_NAMES[op]
+        fn = getattr(getattr(pt, cls), names[field])
+        self[key] = fn
+        return fn
+
+
+_MAYBE_CTORS = _MaybeCtors()
 
 
 def compile_recipe(rec: Dict[str, Any], version: int, optimize: Optional[Dict[str, Any]] = None,
